@@ -4,6 +4,7 @@ import (
 	"bytes"
 	"fmt"
 	"net"
+	"time"
 
 	"github.com/refraction-networking/conjure/pkg/transports"
 	pb "github.com/refraction-networking/conjure/proto"
@@ -139,8 +140,11 @@ func (Transport) WrapConnection(data *bytes.Buffer, c net.Conn, phantom net.IP, 
 
 		mc := transports.PrependToConn(c, data)
 		wrapped, err := factory.WrapConn(mc)
+		if err != nil {
+			return r, wrapped, err
+		}
 
-		return r, wrapped, err
+		return r, deadlineConn{Conn: wrapped, under: c}, nil
 	}
 
 	// If we read more than min handshake len, but less than max and didn't find
@@ -154,6 +158,21 @@ func (Transport) WrapConnection(data *bytes.Buffer, c net.Conn, phantom net.IP, 
 	// for the given phantom.
 	return nil, nil, transports.ErrNotTransport
 }
+
+// deadlineConn gives the wrapped obfs4 connection working deadlines. The obfs4 library connection
+// answers ENOTSUP to SetDeadline and SetWriteDeadline, but the station depends on both: the
+// connection handler clears the classification deadline on the wrapped connection and the proxy
+// refreshes its stall timeouts on it (and gives up when it cannot). The server side of an obfs4
+// connection reads from and writes to the underlying connection synchronously, so the deadlines
+// are applied there.
+type deadlineConn struct {
+	net.Conn          // the obfs4 connection
+	under    net.Conn // the connection it reads from and writes to
+}
+
+func (d deadlineConn) SetDeadline(t time.Time) error      { return d.under.SetDeadline(t) }
+func (d deadlineConn) SetReadDeadline(t time.Time) error  { return d.under.SetReadDeadline(t) }
+func (d deadlineConn) SetWriteDeadline(t time.Time) error { return d.under.SetWriteDeadline(t) }
 
 // This function makes the assumption that any identifier with length 52 is an obfs4 registration.
 // This may not be strictly true, but any other identifier will simply fail to form a connection and
